@@ -233,7 +233,11 @@ impl<'a> Run<'a> {
             Stim::Msg(m) => self.w.send(&clone_msg(m)).await,
             Stim::Raw(b) => self.w.send_raw(b.clone()).await,
             Stim::Timer => self.w.fire_timer().await,
-            Stim::Digest(d) => self.w.give_digest(d.clone()).await,
+            Stim::Digest(d) => {
+                // the node's own mempool: `Processor` stores the batch, then hands the digest over
+                self.w.write_batch(d, d.0.to_vec()).await;
+                self.w.give_digest(d.clone()).await
+            }
             Stim::Batch(d) => self.w.write_batch(d, d.0.to_vec()).await,
         }
         let r = self.w.reaction();
